@@ -1,5 +1,7 @@
 import Swat4.Drv.StoreRun
 import Swat4.Model.USys
+import Swat4.Model.UseCases.ProberRun
+import Swat4.Model.HarnessCfg
 /-!
 Shared by the use-case level drivers (C13–C16): parsing of `ucops.Client` specs into `Prog`
 programs that render their own result, replay of the harness' *effective* call-granularity
@@ -60,23 +62,18 @@ def parseOutcome (s : String) : Option (Option ProbeResult) :=
       pure (some ⟨⟨infoFor hn 10480 np, [], []⟩, qp⟩)
     | _ => none
 
-/-- canonical order the harness gives a popped batch before probing it: by (address, port, goal, retries) -/
-def sortBatch (ps : List Probe) : List Probe :=
-  ps.foldr (fun x acc =>
-    let le (a b : Probe) : Bool :=
-      a.addr.key < b.addr.key || (a.addr.key == b.addr.key && (a.port < b.port || (a.port == b.port &&
-        (a.goal.toNat < b.goal.toNat || (a.goal.toNat == b.goal.toNat && a.retries ≤ b.retries)))))
-    let (lo, hi) := acc.span fun y => le y x && !(le x y && le y x && false)
-    lo ++ x :: hi) []
+/-- rendering of what `UC.proberRun` (`Model/UseCases/ProberRun.lean`: the prober runner — pop `n`, order the batch,
+probe each) reports, as the harness' `pop` client prints it: `popped:<k>:<expired>+<end of each probe>` or the error
+of `PopMany` -/
+def renderProberReport : Except RErr ProberReport → String
+  | .error e => tagRErr e
+  | .ok r => "+".intercalate (s!"popped:{r.popped}:{r.expired}" :: r.ends.map tagProbeEnd)
 
-/-- the prober runner: probe every popped probe in turn, collecting the rendered outcomes -/
-def probeAll (outcome : Option ProbeResult) : List Probe → List String → Prog String
-  | [], acc => pure ("+".intercalate acc)
-  | p :: rest, acc => (probe p outcome).bind fun e => probeAll outcome rest (acc ++ [tagProbeEnd e])
-
+/-- the use-case retry budgets; the defaults are what the harness configured (`Model/HarnessCfg.lean`, mirroring
+`harness/internal/world/world.go:71`) -/
 structure UCfg where
-  revivalRetries : Int := 2
-  refreshRetries : Int := 4
+  revivalRetries : Int := Harness.revivalRetries
+  refreshRetries : Int := Harness.refreshRetries
 
 /-- a parsed `ucops.Client` spec -/
 inductive USpec where
@@ -155,10 +152,7 @@ def USpec.prog (cfg : UCfg) (draws : Nat → Int) : USpec → Prog String
   | .addserver a => (UC.addServer zeroInfo cfg.revivalRetries a).bind fun e => pure (tagAddEnd e)
   | .clean ret => (UC.cleanServers2 ret).bind fun _ => pure "ok"
   | .cleanins ret => (UC.cleanInstances ret).bind fun _ => pure "ok"
-  | .pop n oc => .call (.popMany n) fun r =>
-      match r with
-      | .error e => pure (tagRErr e)
-      | .ok (ps, expired) => probeAll oc (sortBatch ps) [s!"popped:{ps.length}:{expired}"]
+  | .pop n oc => (UC.proberRun n oc).bind fun r => pure (renderProberReport r)
   | .list lv st => (UC.listServers lv (BitVec.ofNat 9 st)).bind fun r =>
       pure (match r with | .ok xs => s!"ok:{renderServers xs}" | .error e => tagUErr e)
   | .raw c =>
